@@ -272,8 +272,8 @@ func (c *fconn) cliReadFrame() ([]byte, int) {
 }
 
 // ---------------------------------------------------------------------------------------------
-// goroutine census (runtime.Stack), restricted to goroutines with pion/ice frames created after
-// a given goroutine id
+// goroutine census (runtime.Stack), restricted to goroutines with pion/ice frames not alive
+// before the history started
 // ---------------------------------------------------------------------------------------------
 
 type census struct {
@@ -286,16 +286,24 @@ const icePkg = "github.com/pion/ice/v4."
 
 var stackBuf = make([]byte, 1<<20)
 
-func curGoroutineMax() int {
-	n := runtime.Stack(stackBuf, true)
-	max := 0
-	for _, blk := range bytes.Split(stackBuf[:n], []byte("\n\n")) {
-		id, _ := parseHeader(string(firstLine(blk)))
-		if id > max {
-			max = id
+// iceGoroutines returns the ids of the goroutines that currently have pion/ice frames (left over
+// from an earlier history whose teardown failed); a history's census ignores exactly those.
+// (Goroutine ids are handed out from per-P caches, so "created later" cannot be told from the id.)
+func iceGoroutines() map[int]bool {
+	out := map[int]bool{}
+	for {
+		n := runtime.Stack(stackBuf, true)
+		if n < len(stackBuf) {
+			for _, blk := range bytes.Split(stackBuf[:n], []byte("\n\n")) {
+				if strings.Contains(string(blk), icePkg) {
+					id, _ := parseHeader(string(firstLine(blk)))
+					out[id] = true
+				}
+			}
+			return out
 		}
+		stackBuf = make([]byte, 2*len(stackBuf))
 	}
-	return max
 }
 
 func firstLine(b []byte) []byte {
@@ -338,17 +346,17 @@ func parked(state string) bool {
 	return false
 }
 
-func takeCensus(afterID int) census {
+func takeCensus(skip map[int]bool) census {
 	for {
 		n := runtime.Stack(stackBuf, true)
 		if n < len(stackBuf) {
-			return parseCensus(stackBuf[:n], afterID)
+			return parseCensus(stackBuf[:n], skip)
 		}
 		stackBuf = make([]byte, 2*len(stackBuf))
 	}
 }
 
-func parseCensus(dump []byte, afterID int) census {
+func parseCensus(dump []byte, skip map[int]bool) census {
 	var c census
 	for _, blk := range bytes.Split(dump, []byte("\n\n")) {
 		s := string(blk)
@@ -356,7 +364,7 @@ func parseCensus(dump []byte, afterID int) census {
 			s = s[:k]
 		}
 		id, st := parseHeader(string(firstLine(blk)))
-		if id <= afterID || !strings.Contains(s, icePkg) {
+		if skip[id] || !strings.Contains(s, icePkg) {
 			continue
 		}
 		switch {
@@ -387,12 +395,12 @@ func parseCensus(dump []byte, afterID int) census {
 
 // settle waits until every pion/ice goroutine (created after afterID) is parked. It returns the
 // census at that point and false when the bound was hit.
-func settle(afterID int, bound time.Duration) (census, bool) {
+func settle(skip map[int]bool, bound time.Duration) (census, bool) {
 	deadline := time.Now().Add(bound)
 	sleep := 20 * time.Microsecond
 	for {
 		runtime.Gosched()
-		c := takeCensus(afterID)
+		c := takeCensus(skip)
 		if c.busy == 0 && c.tm == 0 {
 			return c, true
 		}
